@@ -342,6 +342,9 @@ func (r *Run) Regress() {
 	files, _ := filepath.Glob(filepath.Join(verifDir, "regress", r.ID, "*.json"))
 	sort.Strings(files)
 	for _, path := range files {
+		if os.Getenv("VERIF_SKIP_SEEDED_REGRESS") != "" && strings.HasPrefix(filepath.Base(path), "seeded-") {
+			continue // measuring what the generators find on their own
+		}
 		b, err := os.ReadFile(path)
 		if err != nil {
 			continue
